@@ -712,7 +712,8 @@ Proof.
   intros e He.
   Local Ltac use_gen G He :=
     apply in_app_or in He as [He|He];
-    [ destruct (in_gen _ _ _ _ _ _ _ G He) as [H1 H2]; split; [exact H1|rewrite H2; cbn; tauto] | ].
+    [ destruct (in_gen _ _ _ _ _ _ _ G He) as [H1 H2]; split;
+      [exact H1|rewrite H2; unfold known_oids; cbn [In]; repeat (first [left; reflexivity | right])] | ].
   use_gen G He. use_gen G0 He. use_gen G1 He. use_gen G2 He. use_gen G3 He.
   use_gen G4 He. use_gen G5 He. use_gen G6 He. use_gen G7 He. use_gen G8 He.
   contradiction.
